@@ -3,6 +3,8 @@ import WebpVerif.Lemmas.EncHuffCodes
 import WebpVerif.Lemmas.EncHuffTree
 import WebpVerif.Lemmas.EncHuffLimit
 import WebpVerif.Lemmas.CodeBits
+import WebpVerif.Lemmas.HuffTotal
+import WebpVerif.Props.C01
 
 /-!
 # C14 — encoder prefix codes are complete, length-limited and canonical for any histogram
@@ -110,6 +112,49 @@ theorem codes_decodable (lengths : Array Nat) (limit : Nat) (hlim : limit ≤ 15
 
 -- non-vacuity: the code of the example below, symbol 3 (length 3, code word 011 reversed = 110b)
 example : Prefix.decodeSym [1, 0, 2, 3, 3] 15 0 0 (Prefix.lsbBits 3 3 ++ [1, 0, 1]) = some (3, [1, 0, 1]) := by decide
+
+theorem kk_above (ls : List Nat) (L : Nat) (hall : ∀ l ∈ ls, l ≤ L) : ∀ d, kk ls (L + d) = kk ls L * 2 ^ d := by
+  intro d
+  induction d with
+  | zero => simp
+  | succ d ih =>
+    rw [← Nat.add_assoc, kk_succ, ih, Huff.blCount_zero_above ls L _ hall (by omega), Nat.pow_succ]
+    ring
+
+/-- **The decoder of this crate reads the encoder's code words.**  For lengths within the limit
+    that form a complete code with at least two used symbols (what `build_huffman_tree` returns,
+    `full_upto_256`), the model of `HuffmanTree` (C01: `build_implicit` + `read_symbol`) built
+    from those lengths reads the code word handed out for ANY used symbol `j`, followed by any
+    bits, as exactly `j`, consuming exactly that word. -/
+theorem codes_read_by_huffman_tree (lengths : Array Nat) (limit : Nat) (hlim : limit ≤ 15)
+    (hall : ∀ l ∈ lengths.toList, l ≤ limit) (hk : Prefix.kraft lengths.toList limit = 2 ^ limit)
+    (h2 : 2 ≤ (lengths.toList.filter (· ≠ 0)).length) (hn : lengths.size ≤ 5000) :
+    ∀ j, j < lengths.size → lengths[j]! ≠ 0 → ∀ rest : List Nat, (∀ b ∈ rest, b < 2) → 15 ≤ rest.length →
+      Huff.readSym (Huff.build lengths.toList) (Prefix.lsbBits (assignCodes lengths limit).1[j]! lengths[j]! ++ rest) =
+        some (j, rest) := by
+  intro j hj hne rest hrest hlen
+  have hall15 : ∀ l ∈ lengths.toList, l ≤ 15 := fun l hl => by have := hall l hl; omega
+  have hk15 : Prefix.kraft lengths.toList 15 = 2 ^ 15 := by
+    rw [kraft_kk _ _ hall15, show 15 = limit + (15 - limit) by omega, kk_above _ _ hall, ← kraft_kk _ _ hall, hk, ← Nat.pow_add]
+  have hv : Prefix.validLengths lengths.toList = true := by
+    unfold Prefix.validLengths
+    have a1 : lengths.toList.all (· ≤ 15) = true := by rw [List.all_eq_true]; intro l hl; simpa using hall15 l hl
+    have a2 : ((lengths.toList.filter (· ≠ 0)).length == 1) = false := by rw [beq_eq_false_iff_ne]; omega
+    have a3 : decide ((lengths.toList.filter (· ≠ 0)).length ≥ 2) = true := decide_eq_true h2
+    rw [a1, a2, a3, hk15]; rfl
+  have hbits : ∀ b ∈ Prefix.lsbBits (assignCodes lengths limit).1[j]! lengths[j]! ++ rest, b < 2 := by
+    intro b hb
+    rcases List.mem_append.mp hb with h | h
+    · unfold Prefix.lsbBits at h
+      obtain ⟨i, _, rfl⟩ := List.mem_map.mp h
+      exact Nat.mod_lt _ (by decide)
+    · exact hrest b h
+  have hspec := (C01.huffman_tree_is_spec lengths.toList hall15 (by simpa using hn)).2 hv _ hbits
+    (by rw [List.length_append]; omega)
+  rw [hspec]
+  unfold Prefix.decodeSymbol
+  rw [if_neg (by omega)]
+  exact codes_decodable lengths limit hlim hall (by rw [hk]) j hj hne rest
 
 /-- **The property for every histogram whose Huffman tree needs no limiting** (the common case:
     depth within the limit): `build_huffman_tree` - std's heap with whatever tie-breaking, the
